@@ -10,6 +10,7 @@ env.eq / env.holds / env.fail.  The same function runs
 """
 from __future__ import annotations
 
+import os
 import gc
 import hashlib
 import random
@@ -76,6 +77,10 @@ def _to_float(x):
     if isinstance(x, Fraction):
         return mpmath.mpf(x.numerator) / mpmath.mpf(x.denominator)
     return mpmath.mpf(float(x))
+
+
+# development aid only: evaluate a scratch checkout instead of /repo (never set by the registered commands)
+PYHF_SRC = os.environ.get("VERIF_PYHF_SRC", "/repo/src").rstrip("/")
 
 
 class Obligation:
@@ -300,7 +305,7 @@ def conc_run(harness, values, twin_label=None, tier="quick", seed=0, params=None
             raise
         except Exception as e:
             tbk = traceback.extract_tb(e.__traceback__)
-            if not any("/repo/src/pyhf/" in fr.filename for fr in tbk):
+            if not any(PYHF_SRC + "/pyhf/" in fr.filename for fr in tbk):
                 raise
             env.fail("<unexpected-exception>", f"pyhf raised {type(e).__name__}: {str(e)[:200]}", key=f"unexpected-exception:{type(e).__name__}")
     return env
@@ -358,7 +363,7 @@ def run_item(harness, item, *, tier="quick", max_paths=256, timeout_ms=20000, ce
             raise
         except Exception as e:  # the real code raised where the harness expected it to work
             tbk = traceback.extract_tb(e.__traceback__)
-            where = next((f"{fr.filename.split('/pyhf/')[-1]}:{fr.name}" for fr in reversed(tbk) if "/repo/src/pyhf/" in fr.filename), "harness")
+            where = next((f"{fr.filename.split('/pyhf/')[-1]}:{fr.name}" for fr in reversed(tbk) if PYHF_SRC + "/pyhf/" in fr.filename), "harness")
             if where == "harness":
                 raise
             env.fail("<unexpected-exception>", f"pyhf raised {type(e).__name__}: {str(e)[:200]} in {where} on an input the property covers",
